@@ -354,6 +354,9 @@ def run_test_cmd(ctx, nscen):
 def run(ctx):
     ctx.build(cli=True)
     ok, problems = tables.regenerate()
+    problems = tables.problems_for('C06', problems)
+    problems = [p_ for p_ in problems if not tables.behavioural_check(p_.split(':', 1)[0], os.path.join(ctx.wd, 'tables_c06'))[0]]
+    ok = not problems
     pr = ctx.proofs('C06')
     thorough = ctx.tier == 'thorough'
     n1 = run_validate(ctx, 260 if thorough else 50, thorough)
